@@ -1440,8 +1440,15 @@ class Interp(Ops, Builtins, DynOps):
         if c.base_len is not None:
             c.pc = c.pc[:c.base_len] + [f for f in c.pc[c.base_len:] if not has_quant(f) or f.get_id() in c.keep_ids]
         self._item_assigned_only = item_only
-        self.havoc_for_loop(fr, names, attrs, spec, s)
+        pre_havoc_addr = self.ctx.next_addr      # concrete cells made by the havoc itself are fresh stand-ins (already "forgotten" state)
+        outer_dicts = getattr(self, "_havocked_dicts", None)
+        self._havocked_dicts = {}
+        try:
+            self.havoc_for_loop(fr, names, attrs, spec, s)
+        finally:
+            havocked_dicts, self._havocked_dicts = self._havocked_dicts, outer_dicts
         wmark = len(self.ctx.written)
+        cmark, cut_addr = len(getattr(self.ctx, "all_cell_writes", [])), self.ctx.next_addr
         if which == 0:
             idx = self.ctx.fresh(ivar, I)
             self.ctx.assume(z3.And(0 <= idx, idx < n))
@@ -1459,6 +1466,20 @@ class Interp(Ops, Builtins, DynOps):
             check_inv(idx + 1, "preserve")
             self._loop_attrs = attrs
             self.loop_frame_check(tag, spec, fr, wmark, s)
+            # concrete containers that exist before the cut and are mutated by the body (x.append(...), d[k] = v, ...) are not forgotten at the cut:
+            # the engine would run every iteration on their pre-loop state. Refuse instead of proving from a stale state.
+            hav = set()
+            for (on, an) in attrs:
+                o = fr.lookup(on)
+                if o is not None and o.kind == "ref":
+                    hav.add((o.addr, an))
+            entry = self.ctx.entry_addr or 0
+            for (addr, what, node) in getattr(self.ctx, "all_cell_writes", [])[cmark:]:
+                if what == "[]" and addr in havocked_dicts and len(self.ctx.cheap[addr][0]) == havocked_dicts[addr]:
+                    continue        # a dict whose values were forgotten at the cut and whose key set the body leaves alone
+                if entry <= addr < pre_havoc_addr and (addr, what) not in hav:
+                    raise EngineError(f"the body of loop {k} of {fi.fq} changes a concrete container created before the loop ({what} at line {getattr(node, 'lineno', '?')}): "
+                                      f"declare that local as an SMT list / object in the contract (locals=...) so that the cut forgets it")
             raise PathEnd()
         else:
             assume_inv(n)
@@ -1596,6 +1617,8 @@ class Interp(Ops, Builtins, DynOps):
             for i, x in enumerate(vals):
                 if x.kind not in ("slist", "sobj"):
                     vals[i] = self.fresh_like(x, f"{name}[{i}]", node)
+            if getattr(self, "_havocked_dicts", None) is not None:
+                self._havocked_dicts[v.addr] = len(keys)
             return v
         raise EngineError(f"cannot havoc {name} = {v} at a loop cut (line {getattr(node, 'lineno', '?')})")
 
